@@ -29,7 +29,8 @@ Inputs == <<
   M(<<>>),
   M(<< <<S("a"), M(<< <<S("facts"), I(62)>> >>)>>, <<S("facts"), M(<< <<S("facts"), I(61)>> >>)>> >>),
   M(<< <<S("A"), M(<< <<S("A"), M(<< <<S("A"), I(72)>> >>)>> >>)>>,
-       <<S("a"), VVec(<< VVec(<< VVec(<<I(71)>>) >>) >>)>> >>) >>
+       <<S("a"), VVec(<< VVec(<< VVec(<<I(71)>>) >>) >>)>> >>),
+  M(<< <<S("1"), I(91)>>, <<S("a"), M(<< <<S("0"), I(92)>>, <<S("1"), VVec(<<I(93), I(94)>>)>> >>)>>, <<S("ab"), VVec(<<I(95), M(<< <<S("1"), I(96)>> >>)>>)>> >>) >>
 
 SymTabs == << <<>>,
               << <<S("s"), I(81)>> >>,
@@ -39,7 +40,7 @@ SymTabs == << <<>>,
 Roots == { Ref(S("a")), Ref(S("A")), Ref(S("ab")), Ref(S("facts")), Ref(S("b")), Ref(S("zz")),
            Sym(S("s")), Sym(S("S")), Sym(S("facts")), Sym(S("zz")), Call(S("nofn"), Val(I(1))) }
 
-StepPool == { FieldI(S("a")), FieldI(S("A")), FieldI(S("ab")), FieldI(S("facts")), FieldI(S("b")),
+StepPool == { FieldI(S("a")), FieldI(S("A")), FieldI(S("ab")), FieldI(S("facts")), FieldI(S("b")), FieldI(S("1")),
               PosI(0), PosI(1), PosI(2), PosI(3) }
 
 Init == c \in { [inp |-> i, tab |-> t, root |-> r, steps |-> <<>>] : i \in 1..Len(Inputs), t \in 1..Len(SymTabs), r \in Roots }
